@@ -144,7 +144,13 @@ def apply_contract(interp, c, func, args, kwargs):
         result = SIter(ys, 0)
     env2 = _clause_env(bound, ghosts, {'result': result, 'old': old, 'trace': st.trace, 'ghost': st.ghost})
     for name, clause in c.ensures.items():
-        if isinstance(clause, tuple):       # (clause, 'effect') : executed for its effect on ghost state
+        if isinstance(clause, tuple) and callable(clause[1]):
+            # (clause, when): proved of the function, but assumed at a call site only where
+            # when(name of the function under verification) holds (detail that other levels do not need)
+            if not clause[1](interp.fn_name):
+                continue
+            clause = clause[0]
+        elif isinstance(clause, tuple):       # (clause, 'effect') : executed for its effect on ghost state
             _call_pred(interp, clause[0], env2)
             continue
         st.assume(interp.truth(_call_pred(interp, clause, env2, assumed=True)))
@@ -447,7 +453,9 @@ def _run_path(interp, reg, c, func, rep):
                 st.oblige('%s : raises[%s] when-condition implies raise' % (fname, _exc_name(exc_cls)),
                           interp.not_(w), {'kind': 'exc-post'})
         for name, clause in c.ensures.items():
-            if isinstance(clause, tuple):
+            if isinstance(clause, tuple) and callable(clause[1]):
+                clause = clause[0]
+            elif isinstance(clause, tuple):
                 continue
             _oblige_clause(interp, '%s : ensures[%s]' % (fname, name), clause, env2, {'kind': 'post'})
     else:
